@@ -571,7 +571,11 @@ def _check_fit_rest2(chk, fi, fm, f, c, _try, inl) -> None:
                 if kn in allowed_vars:
                     continue
                 loop = _enclosing_loop(fi.node, s)
-                if isinstance(key, ast.Name) and loop is not None and isinstance(loop.target, ast.Name) and loop.target.id == kn:
+                # the loop variable that names the column: the target itself, or one member of a tuple target (`for col, flag in table.items()`)
+                loop_names = set()
+                if loop is not None:
+                    loop_names = {loop.target.id} if isinstance(loop.target, ast.Name) else ({e.id for e in loop.target.elts if isinstance(e, ast.Name)} if isinstance(loop.target, ast.Tuple) else set())
+                if isinstance(key, ast.Name) and kn in loop_names:
                     # a store into the column the loop is at: allowed when the value is computed from that column only (a conversion of
                     # the column onto itself, possibly through locals), or creates the column when it is absent
                     v = norm(s.value)
